@@ -300,17 +300,273 @@ Definition run_build (kind txd idx value keys signers seps variant : string) : s
   | _, _, _, _ => "BADARG"
   end.
 
+(* ------------------------------------------------------------------ *)
+(* interp.seq: one Transaction object (and one kept Interpreter) driven through a little program (see the driver).
+   The model has no memo and no aliasing: every observation is computed from the field values at that moment; the kept
+   interpreter holds the transaction as it was when it was made, and stepping it before running changes nothing (C16).
+   Specification column: for every run, the verdict of Spec/SpendSpec.v / SpendTwo.v on the field values at that moment. *)
+Definition u64_max : N := 18446744073709551615%N.
+Definition u32_max : N := 4294967295%N.
+
+Definition verdict_of (t : tx) (i : nat) : string :=
+  match nth_error (inputs t) i with
+  | None => "R"
+  | Some inp =>
+      match satoshis inp, locking inp with
+      | Some amount, Some l =>
+          match tokenize_spec (to_bytes l), tokenize_spec (to_bytes (unlocking inp)) with
+          | TokOk lock, TokOk unlock =>
+              match fst (spec_expected (view_tx t) i amount lock unlock) with
+              | Accept => "A"
+              | Reject => "R"
+              | AcceptOrReject => "*"
+              | Unspecified =>
+                  match expected_two H_spec sec1_decode_fast prim_verify_fast (view_tx t) i amount lock unlock with
+                  | Accept => "A" | Reject => "R" | _ => "*"
+                  end
+              end
+          | _, _ => "*"
+          end
+      | _, _ => "*"
+      end
+  end.
+
+Fixpoint join_items (v : list bytes) : string :=
+  match v with [] => "" | [x] => show_bytes x | x :: r => show_bytes x +++ "^" +++ join_items r end.
+Definition coarse_of (s : list bytes) : string :=
+  match s with
+  | [[b]] => if (b2n b =? 1)%N then "A" else "O"
+  | [[]] => "R"
+  | _ => "O"
+  end.
+(* (observation, coarse letter) of from_transaction + run *)
+Definition observe_run (r : outcome (run_result txctx)) : outcome (string * string) :=
+  match r with
+  | Ok (RunOk j) => let st := istate j in
+                    Ok (join_items (stack st) +++ "@" +++ dec_of_N (N.of_nat (codesep st)), coarse_of (stack st))
+  | Ok (RunErr _) | Err => Ok ("E", "R")
+  | Ok RunPanic | Panic => Panic
+  | Ok RunOutOfFuel => Panic
+  end.
+
+Record seq_st : Type := mkSeq {
+  q_tx : tx;
+  q_kept : option tx;                  (* the transaction the kept interpreter was made from (None: none / from_transaction failed) *)
+  q_obs : list string;
+  q_coarse : list string;              (* what the driver must print *)
+  q_spec : list string                 (* what the specification prescribes *)
+}.
+
+Inductive step_res := SOk (s : seq_st) | SErr | SPanic | SBad.
+
+Definition upd_input (t : tx) (k : nat) (f : txin -> txin) : tx :=
+  match nth_error (inputs t) k with
+  | Some inp => set_inputs t (set_nth k (f inp) (inputs t))
+  | None => t
+  end.
+Definition with_tx (s : seq_st) (t : tx) : seq_st := mkSeq t (q_kept s) (q_obs s) (q_coarse s) (q_spec s).
+Definition add_obs (s : seq_st) (o : string) : seq_st := mkSeq (q_tx s) (q_kept s) (q_obs s ++ [o]) (q_coarse s) (q_spec s).
+Definition add_run (s : seq_st) (o c sp : string) : seq_st :=
+  mkSeq (q_tx s) (q_kept s) (q_obs s ++ [o]) (q_coarse s ++ [c]) (q_spec s ++ [sp]).
+
+Definition seq_step (sk : privkey) (i : nat) (s : seq_st) (step : string) : step_res :=
+  match step with
+  | EmptyString => SBad
+  | String c rest =>
+      let op1 := String c EmptyString in
+      let t := q_tx s in
+      let f := split "." rest in
+      let run_on (t0 : tx) : step_res :=
+        match observe_run (spend FP t0 i) with
+        | Ok (o, cl) => SOk (add_run s o cl (verdict_of t0 i))
+        | _ => SPanic
+        end in
+      if String.eqb op1 "r" then (if String.eqb rest "" then run_on t else SBad)
+      else if String.eqb op1 "i" then
+        (if String.eqb rest "" then
+           SOk (mkSeq t (match from_transaction t i with Ok _ => Some t | _ => None end) (q_obs s) (q_coarse s) (q_spec s))
+         else SBad)
+      else if String.eqb op1 "n" then
+        match N_of_dec rest with Some k => if (k <=? 1000)%N then SOk s else SBad | None => SBad end
+      else if String.eqb op1 "R" then
+        (if String.eqb rest "" then
+           match q_kept s with
+           | Some t0 => run_on t0
+           | None => SOk (add_run s "E" "R" "*")
+           end
+         else SBad)
+      else if String.eqb op1 "v" then
+        match N_of_dec rest with
+        | Some v => if (v <=? u64_max)%N then SOk (with_tx s (upd_input t i (fun inp => set_satoshis inp v))) else SBad
+        | None => SBad
+        end
+      else if String.eqb op1 "l" || String.eqb op1 "u" then
+        match expand rest with
+        | None => SBad
+        | Some b =>
+            match from_bytes b with
+            | Ok sc => SOk (with_tx s (upd_input t i (fun inp => if String.eqb op1 "l" then set_locking_script inp sc
+                                                                 else set_unlocking inp sc)))
+            | Err => SErr
+            | Panic => SPanic
+            end
+        end
+      else if String.eqb op1 "V" || String.eqb op1 "L" then
+        match N_of_dec rest with
+        | Some v =>
+            if (v <=? u32_max)%N then
+              SOk (with_tx s (if String.eqb op1 "V" then mk_tx v (inputs t) (outputs t) (locktime t)
+                              else mk_tx (version t) (inputs t) (outputs t) v))
+            else SBad
+        | None => SBad
+        end
+      else if String.eqb op1 "o" || String.eqb op1 "q" then
+        match f with
+        | [a; b] =>
+            match N_of_dec a, N_of_dec b with
+            | Some k, Some v =>
+                if negb (k <=? 1000)%N || negb (v <=? u64_max)%N then SBad
+                else if String.eqb op1 "o" then
+                  SOk (with_tx s (match nth_error (outputs t) (N.to_nat k) with
+                                  | Some o => mk_tx (version t) (inputs t)
+                                                    (set_nth (N.to_nat k) (mk_txout v (script_pub_key o)) (outputs t)) (locktime t)
+                                  | None => t
+                                  end))
+                else if (v <=? u32_max)%N then SOk (with_tx s (upd_input t (N.to_nat k) (fun inp => set_sequence inp v)))
+                else SBad
+            | _, _ => SBad
+            end
+        | _ => SBad
+        end
+      else if String.eqb op1 "a" then
+        match N_of_dec rest with
+        | Some v => if (v <=? u64_max)%N
+                    then SOk (with_tx s (mk_tx (version t) (inputs t) (outputs t ++ [mk_txout v [BOp 81]]) (locktime t)))
+                    else SBad
+        | None => SBad
+        end
+      else if String.eqb op1 "c" then (if String.eqb rest "" then SOk s else SBad)
+      else if String.eqb op1 "s" then
+        (if String.eqb rest "" then
+           match tx_from_bytes (tx_bytes t) with
+           | Ok t2 =>
+               let ins := mapi_from 0 (fun k new => match nth_error (inputs t) k with
+                                                    | Some old => mk_txin (prev_tx_id new) (vout new) (unlocking new) (sequence new)
+                                                                          (locking old) (satoshis old)
+                                                    | None => new
+                                                    end) (inputs t2) in
+               SOk (with_tx s (set_inputs t2 ins))
+           | Err => SErr
+           | Panic => SPanic
+           end
+         else SBad)
+      else if String.eqb op1 "g" || String.eqb op1 "G" || String.eqb op1 "K" || String.eqb op1 "p" then
+        match f with
+        | [a; b; d] =>
+            match N_of_dec a, N_of_dec b, expand d with
+            | Some fl, Some v, Some subb =>
+                if negb (fl <=? 255)%N || negb (v <=? u64_max)%N || negb (is_sighash fl) then SBad
+                else
+                  match from_bytes subb with
+                  | Panic => SPanic
+                  | Err => SErr
+                  | Ok sub =>
+                      if String.eqb op1 "p" then
+                        match sighash_preimage sha_256d t i fl sub v with
+                        | Ok p => SOk (add_obs s (show_bytes p))
+                        | Err => SOk (add_obs s "E")
+                        | Panic => SPanic
+                        end
+                      else
+                        match tx_sign_element FP t sk fl i sub v with
+                        | Panic => SPanic
+                        | Err => SOk (add_obs s "E")
+                        | Ok sb =>
+                            let s1 := add_obs s (hex_of_bytes sb) in
+                            if String.eqb op1 "g" then SOk s1
+                            else
+                              match (do p <- encode_pushdata sb;
+                                     do k <- (if String.eqb op1 "K" then encode_pushdata (pubkey_bytes FP sk) else Ok []);
+                                     from_bytes (p ++ k)) with
+                              | Ok sc => SOk (with_tx s1 (upd_input t i (fun inp => set_unlocking inp sc)))
+                              | _ => SOk s1
+                              end
+                        end
+                  end
+            | _, _, _ => SBad
+            end
+        | _ => SBad
+        end
+      else if String.eqb op1 "t" then
+        match f with
+        | [a; b; d] =>
+            match expand a, expand b, expand d with
+            | Some sg, Some pkb, Some pre =>
+                match sighashsig_from_bytes sg pre, pubkey_from_bytes FP pkb with
+                | Ok ss, Ok pk =>
+                    let bit (b : bool) : string := if b then "1" else "0" in
+                    let d1 := match verify_digest FP pre pk (ss_sig ss) SHSha256d with Ok true => true | _ => false end in
+                    let d2 := match tx_verify FP pk ss with Ok true => true | _ => false end in
+                    let rdig := ad_finalize ASha256r (ad_reverse (get_hash_digest SHSha256d pre)) in
+                    let d3 := match verify_hashbuf_impl FP rdig pk (ss_sig ss) with Ok true => true | _ => false end in
+                    SOk (add_obs s (bit d1 +++ bit d2 +++ bit d3))
+                | Panic, _ | _, Panic => SPanic
+                | _, _ => SOk (add_obs s "E")
+                end
+            | _, _, _ => SBad
+            end
+        | _ => SBad
+        end
+      else SBad
+  end.
+
+Fixpoint seq_steps (sk : privkey) (i : nat) (s : seq_st) (steps : list string) : step_res :=
+  match steps with
+  | [] => SOk s
+  | x :: r => match seq_step sk i s x with SOk s' => seq_steps sk i s' r | e => e end
+  end.
+
+Definition run_seq (txb : bytes) (idx : N) (es : list ext_entry) (sk : privkey) (steps : list string) : string :=
+  match tx_from_bytes txb with
+  | Panic => out3 "PANIC" "-" "-"
+  | Err => out3 "ERR" "-" "-"
+  | Ok t0 =>
+      match apply_ext (inputs t0) es with
+      | Panic => out3 "PANIC" "-" "-"
+      | Err => out3 "ERR" "-" "-"
+      | Ok ins =>
+          let t := set_inputs t0 ins in
+          let i := clamp_idx t idx in
+          match seq_steps sk i (mkSeq t None [] [] []) steps with
+          | SBad => "BADARG"
+          | SErr => out3 "ERR" "-" "-"
+          | SPanic => out3 "PANIC" "-" "-"
+          | SOk s =>
+              let tail (l : list string) := match l with [] => "-" | _ => join ";" l end in
+              out3 ("OK:" +++ join "/" (q_obs s) +++ ";" +++ tail (q_coarse s)) ("*;" +++ tail (q_spec s)) "-"
+          end
+      end
+  end.
+
+Definition idx_of (s : string) : option N :=
+  match N_of_dec s with Some n => if (n <=? u64_max)%N then Some n else None | None => None end.
+
 Definition run (op : string) (args : list string) : string :=
   match op, args with
   | "interp.spend", [txd; idx; ext] =>
-      match expand txd, N_of_dec idx, parse_ext ext with
+      match expand txd, idx_of idx, parse_ext ext with
       | Some txb, Some i, Some es => run_spend txb i es
       | _, _, _ => "BADARG"
       end
   | "interp.spend_steps", [txd; idx; ext] =>        (* stepping = run (property C16): the same answer *)
-      match expand txd, N_of_dec idx, parse_ext ext with
+      match expand txd, idx_of idx, parse_ext ext with
       | Some txb, Some i, Some es => run_spend txb i es
       | _, _, _ => "BADARG"
+      end
+  | "interp.seq", [txd; idx; ext; key; steps] =>
+      match expand txd, idx_of idx, parse_ext ext, parse_key key with
+      | Some txb, Some i, Some es, Some sk => run_seq txb i es sk (split "," steps)
+      | _, _, _, _ => "BADARG"
       end
   | "spend.build", [kind; txd; idx; value; keys; signers; seps; variant] =>
       run_build kind txd idx value keys signers seps variant
